@@ -25,3 +25,18 @@ uniffi::setup_scaffolding!();
 
 #[doc(inline)]
 pub use crate::node::{Node, NodeBuilder, NodeError, Result};
+
+/// Verification hooks: compiled only with `--cfg eigerco_lumina_verif` (see /verif).
+#[cfg(eigerco_lumina_verif)]
+#[doc(hidden)]
+pub mod verif {
+    pub use crate::block_ranges::verif as block_ranges;
+    pub use crate::daser::verif as daser;
+    pub use crate::node::verif as node;
+    pub use crate::p2p::verif as p2p;
+    pub use crate::peer_tracker::verif as peer_tracker;
+    pub use crate::pruner::verif as pruner;
+    pub use crate::store::verif as store;
+    pub use crate::syncer::verif as syncer;
+    pub use crate::utils::verif as utils;
+}
